@@ -28,11 +28,6 @@ val mul : nat -> nat -> nat
 
 val sub : nat -> nat -> nat
 
-<<<<<<< HEAD
-val eqb : bool -> bool -> bool
-
-=======
->>>>>>> main
 module Nat :
  sig
   val eqb : nat -> nat -> bool
@@ -215,19 +210,8 @@ module Z :
 
   val ltb : z -> z -> bool
 
-<<<<<<< HEAD
-  val gtb : z -> z -> bool
-
   val eqb : z -> z -> bool
 
-  val max : z -> z -> z
-
-  val min : z -> z -> z
-
-=======
-  val eqb : z -> z -> bool
-
->>>>>>> main
   val abs : z -> z
 
   val to_nat : z -> nat
@@ -244,13 +228,6 @@ module Z :
 
   val div : z -> z -> z
 
-<<<<<<< HEAD
-  val quotrem : z -> z -> z * z
-
-  val quot : z -> z -> z
-
-=======
->>>>>>> main
   val even : z -> bool
 
   val ggcd : z -> z -> z * (z * z)
@@ -288,11 +265,6 @@ val fPi : n
 
 val fW : n
 
-<<<<<<< HEAD
-val fErr : n
-
-=======
->>>>>>> main
 val fR : n
 
 val fBit : n
@@ -301,15 +273,6 @@ val fComp : n
 
 val fZ : n
 
-<<<<<<< HEAD
-val fGen : n
-
-val fX : n
-
-val fSub : n
-
-=======
->>>>>>> main
 val edge : n -> n -> n -> var
 
 val pi : n -> n -> n -> var
@@ -497,162 +460,7 @@ val aug_edges :
 
 type edge1 = n * n
 
-<<<<<<< HEAD
-val eqe : edge1 -> edge1 -> bool
-
-val memN : n -> n list -> bool
-
-val memE : edge1 -> edge1 list -> bool
-
-val nodupE : edge1 list -> bool
-
-val map_of : (n * n) list -> n -> n -> n
-
-val pairs : n list -> edge1 list
-
-val mem : ('a1 -> 'a1 -> bool) -> 'a1 -> 'a1 list -> bool
-
-val add_all : ('a1 -> 'a1 -> bool) -> 'a1 list -> 'a1 list -> 'a1 list
-
-val clos :
-  ('a1 -> 'a1 -> bool) -> ('a1 -> 'a1 list) -> nat -> 'a1 list -> 'a1 list
-
-val succs_of : edge1 list -> n -> n list
-
-val preds_of : edge1 list -> n -> n list
-
-val closure : n list -> (n -> n list) -> n -> n list
-
-val upd : (n -> 'a1) -> n -> 'a1 -> n -> 'a1
-
-val pull_step :
-  (n -> n list) -> (n -> n -> 'a1 -> 'a1 -> 'a1) -> (n -> 'a1) -> n -> n ->
-  'a1
-
-val pull :
-  (n -> n list) -> (n -> n -> 'a1 -> 'a1 -> 'a1) -> n list -> (n -> 'a1) -> n
-  -> 'a1
-
-val push_step :
-  (n -> n list) -> ('a1 -> 'a1 -> 'a1) -> (n -> 'a1) -> n -> n -> 'a1
-
-val push :
-  (n -> n list) -> ('a1 -> 'a1 -> 'a1) -> n list -> (n -> 'a1) -> n -> 'a1
-
-type cond = { c_map : (n -> n); c_edges : (n * n) list; c_topo : n list }
-
-val nodupb : n list -> bool
-
-val beforeb : n list -> n -> n -> bool
-
-val mutual : n list -> edge1 list -> n -> n -> bool
-
-val cond_ok : n list -> edge1 list -> cond -> bool
-
-val nodes_by_scc : n list -> cond -> n -> n list
-
-val descendants : cond -> n -> n list
-
-val ancestors : cond -> n -> n list
-
-val nodes_reachable_cold : n list -> cond -> n -> n list option
-
-val nodes_reaching_cold : n list -> cond -> n -> n list option
-
-val is_scc_edge_model : edge1 list -> cond -> n -> n -> bool option
-
-val wt : (edge1 * z) list -> edge1 -> z
-
-val local_out : edge1 list -> cond -> (edge1 * z) list -> n -> z
-
-val local_in : edge1 list -> cond -> (edge1 * z) list -> n -> z
-
-val zjoin : z -> z -> z
-
-val max_desc : edge1 list -> cond -> (edge1 * z) list -> n -> z
-
-val max_anc : edge1 list -> cond -> (edge1 * z) list -> n -> z
-
-val edge_max_reachable : edge1 list -> cond -> (edge1 * z) list -> edge1 -> z
-
-val edge_max_reachable_all :
-  edge1 list -> cond -> (edge1 * z) list -> (edge1 * z) list
-
-type cache = { k_from : (n * n list) list; k_to : (n * n list) list }
-
-val cache0 : cache
-
-val lookup : n -> (n * n list) list -> n list option
-
-val modify : n -> (n list -> n list) -> (n * n list) list -> (n * n list) list
-
-type query =
-| QReach of n
-| QReaching of n
-| QScc of n * n
-| QMut of bool * bool * n * n
-
-type answer =
-| ANodes of n list
-| ABool of bool
-| AErr
-| AUnit
-
-val qstep :
-  n list -> edge1 list -> cond -> bool -> cache -> query -> cache * answer
-
-val qrun :
-  n list -> edge1 list -> cond -> bool -> cache -> query list -> answer list
-
-val union : n list -> n list -> n list
-
-val eunion : edge1 list -> edge1 list -> edge1 list
-
-val dag_topo_ok : n list -> edge1 list -> n list -> bool
-
-val dag_reachable_from : edge1 list -> n list -> n -> n list
-
-val dag_nodes_reaching : edge1 list -> n list -> n -> n list
-
-val dag_reachable_edges_from : edge1 list -> n list -> n -> edge1 list
-
-val dag_reachable_edges_rev_from : edge1 list -> n list -> n -> edge1 list
-
-val zsum : ('a1 -> z) -> 'a1 list -> z
-
-val indz : bool -> z
-
-val pairwise : ('a1 -> 'a1 -> bool) -> 'a1 list -> bool
-
-val graph_ok : n list -> edge1 list -> bool
-
-val reachb : n list -> edge1 list -> n -> n -> bool
-
-val incompatible : n list -> edge1 list -> edge1 -> edge1 -> bool
-
-val antichain_ok : n list -> edge1 list -> edge1 list -> bool
-
-val route_okb : edge1 list -> n -> n -> n list -> bool
-
-val coverage : (n list * z) list -> edge1 -> z
-
-val cover_size : (n list * z) list -> z
-
-val cover_ok :
-  edge1 list -> n -> n -> (edge1 * z) list -> (n list * z) list -> bool
-
-val antichain_weight : (edge1 * z) list -> edge1 list -> z
-
-val certificate_ok :
-  n list -> edge1 list -> n -> n -> (edge1 * z) list -> edge1 list -> (n
-  list * z) list -> bool
-
-type edge2 = n * n
-
-type graph = edge2 list
-=======
 type graph = edge1 list
->>>>>>> main
 
 val pop_out : graph -> n -> (n * graph) option
 
@@ -671,177 +479,11 @@ val reconstruct : graph -> n -> (graph * n list) option
 
 val round_half_even : q -> z
 
-<<<<<<< HEAD
-val residual_q : (edge2 * q) list -> graph
-
-val strip_st : n -> n -> n list -> n list
-
-val solution_walk : (edge2 * q) list -> n -> n -> (nat * n list) option
-
-val fY : n
-
-val fPiY : n
-
-val fFV : n
-
-val fFVU : n
-
-val fFVM : n
-
-val gen : n -> var
-
-val xv : n -> n -> var
-
-val pij : n -> n -> var
-
-val yv : n -> n -> n -> var
-
-val piY : n -> n -> n -> var
-
-val sub0 : n -> var
-
-val xe : edge0 -> var
-
-val erre : edge0 -> var
-
-val fV : n -> var
-
-val fVU : n -> var
-
-val fVM : edge0 -> n -> var
-
-val qcol : var -> q -> q -> bool -> col
-
-val idxs : 'a1 list -> n list
-
-type mgs_inst = { mg_numbers : q list; mg_total : q; mg_int : bool;
-                  mg_mult : nat; mg_parts : q list list option }
-
-val qmem : q -> q list -> bool
-
-val qlt_bool : q -> q -> bool
-
-val mgs_removed : q list -> q -> q list
-
-val qnodup : q list -> q list
-
-val mgs_preprocess : bool -> q list -> q -> q list
-
-val mult1 : mgs_inst -> bool
-
-val x_ub : mgs_inst -> q
-
-val nbits : mgs_inst -> nat
-
-val parts_of : mgs_inst -> q list list
-
-val parts_t : mgs_inst -> nat
-
-val ijc : mgs_inst -> nat -> ((n * n) * n) list
-
-val part_cols : mgs_inst -> nat -> col list
-
-val part_rows : mgs_inst -> nat -> row list
-
-val mgs_cols : mgs_inst -> nat -> col list
-
-val prod_rows : mgs_inst -> n -> n -> row list
-
-val row_total : mgs_inst -> nat -> row
-
-val row_sum_pi : nat -> (n * q) -> row
-
-val sym_rows : nat -> row list
-
-val mgs_rows : mgs_inst -> nat -> row list
-
-val encode_mgs : mgs_inst -> nat -> milp
-
-type mstatus =
-| MgOptimal
-| MgInfeasible
-| MgOther
-
-val mgsm_range : nat -> nat -> nat list
-
-val mgsm_loop_on : (nat -> mstatus) -> nat list -> nat list * nat option
-
-val mgsm_loop : (nat -> mstatus) -> nat -> nat -> nat list * nat option
-
-val py_int : q -> z
-
-type msc_inst = { sc_universe : n list; sc_subsets : n list list;
-                  sc_weights : q list option }
-
-val nmem : n -> n list -> bool
-
-val msc_cols : msc_inst -> col list
-
-val cover_row : msc_inst -> n -> row
-
-val msc_rows : msc_inst -> row list
-
-val msc_obj : nat -> n list list -> q list -> lin option
-
-val encode_msc : msc_inst -> milp option
-
-type mef_inst = { mef_nodes : n list; mef_edges : edge0 list;
-                  mef_flow : (edge0 * q) list; mef_ignore : edge0 list;
-                  mef_scale : (edge0 * q) list; mef_lambda : q;
-                  mef_src : n option; mef_int : bool }
-
-val mef_in_edges : edge0 list -> n -> edge0 list
-
-val has_flow : mef_inst -> edge0 -> bool
-
-val fval : mef_inst -> edge0 -> q
-
-val ignored : mef_inst -> edge0 -> bool
-
-val scale_of : mef_inst -> edge0 -> q
-
-val mef_ok : mef_inst -> bool
-
-val mef_wmax : mef_inst -> q
-
-val mef_ub : mef_inst -> q
-
-val conserved : mef_inst -> n -> bool
-
-val cons_row : mef_inst -> n -> row
-
-val err_rows : mef_inst -> edge0 -> row list
-
-val mef_cols : mef_inst -> col list
-
-val mef_rows : mef_inst -> row list
-
-val mef_obj : mef_inst -> lin
-
-val encode_mef : mef_inst -> milp
-
-val mef2_cols : mef_inst -> edge0 list -> nat -> col list
-
-val mef2_edge_rows : mef_inst -> nat -> edge0 -> row list
-
-val mef2_budget : q -> q -> q
-
-val encode_mef2 : mef_inst -> edge0 list -> q -> q -> nat -> milp
-
-val py_round_half_even : q -> z
-
-val corrected_value : mef_inst -> (edge0 -> q) -> edge0 -> q
-
-val corrected_graph :
-  mef_inst -> n list -> edge0 list -> (edge0 -> q) -> n list * (edge0 * q
-  option) list
-=======
 val residual_q : (edge1 * q) list -> graph
 
 val strip_st : n -> n -> n list -> n list
 
 val solution_walk : (edge1 * q) list -> n -> n -> (nat * n list) option
->>>>>>> main
 
 type str = n list
 
@@ -997,72 +639,6 @@ val show_aux : nat -> n -> str -> str
 
 val show_N : n -> str
 
-<<<<<<< HEAD
-val sumL : ('a1 -> z) -> 'a1 list -> z
-
-val ind1 : bool -> z
-
-val sub1 : (edge1 -> z) -> z -> n list -> edge1 -> z
-
-val npos : edge1 list -> (edge1 -> z) -> nat
-
-type outcome =
-| MBPath of z * n list
-| MBNoPath
-| MBNoSink
-
-type peel_result =
-| PeelOK of (n list * z) list
-| PeelKeyError
-| PeelOutOfFuel
-
-val peel : ((edge1 -> z) -> outcome) -> nat -> (edge1 -> z) -> peel_result
-
-val explained : (n list * z) list -> edge1 -> z
-
-type bval = z option
-
-val bmin : bval -> z -> z
-
-type st = { bB : (n -> bval); bP : (n -> n); bbest : (n * z) option }
-
-val pick :
-  (edge1 -> z) -> (n -> bval) -> n -> (z * n) option -> n -> (z * n) option
-
-val best_pred : (edge1 -> z) -> (n -> bval) -> n -> n list -> (z * n) option
-
-val dp_step : (edge1 -> z) -> (n -> n list) -> (n -> n list) -> st -> n -> st
-
-val dp_init : st
-
-val back : (n -> n list) -> nat -> (n -> n) -> n -> n list -> n list
-
-val max_bottleneck :
-  (edge1 -> z) -> (n -> n list) -> (n -> n list) -> n list -> outcome
-
-val decompose :
-  edge1 list -> (n -> n list) -> (n -> n list) -> n list -> (edge1 -> z) ->
-  peel_result
-
-val flow_of : (edge1 * z) list -> edge1 -> z
-
-val adj_of : (n * n list) list -> n -> n list
-
-val max_bottleneck_run :
-  (edge1 * z) list -> (n * n list) list -> (n * n list) list -> n list ->
-  outcome
-
-val decompose_run :
-  (edge1 * z) list -> (n * n list) list -> (n * n list) list -> n list ->
-  peel_result
-
-val peel_inputs_ok :
-  edge1 list -> (n * n list) list -> (n * n list) list -> n list -> bool
-
-val explains_ok : (edge1 * z) list -> (n list * z) list -> bool
-
-=======
->>>>>>> main
 val qabs : q -> q
 
 type status =
@@ -1107,11 +683,7 @@ type result =
 | Crashed
 | Starved
 
-<<<<<<< HEAD
-type outcome0 = { so_res : result; used : nat; aux : nat; lbk : nat }
-=======
 type outcome = { so_res : result; used : nat; aux : nat; lbk : nat }
->>>>>>> main
 
 val kloop :
   (nat -> bool) -> (nat -> bool) -> nat list -> raw list -> nat ->
@@ -1125,17 +697,11 @@ val upper : bool -> nat -> nat
 
 val mgs_loop : bool -> nat list -> raw list -> nat -> result * nat
 
-<<<<<<< HEAD
-val mgs_range : nat -> nat -> nat list
-
-val mgs_solve : bool -> nat -> nat -> raw list -> outcome0
-=======
 val mgs_upper : nat -> nat -> nat
 
 val mgs_range : nat -> nat -> nat list
 
 val mgs_solve : bool -> nat -> nat -> raw list -> outcome
->>>>>>> main
 
 type lbres =
 | LB of nat * nat
@@ -1151,17 +717,6 @@ type fd_params = { lb0 : nat; upper_excl : bool; nedges : nat;
 
 val given_match : nat option -> nat -> bool
 
-<<<<<<< HEAD
-val fd_solve : bool -> bool -> fd_params -> raw list -> outcome0
-
-val mfd_solve : bool -> bool -> fd_params -> raw list -> outcome0
-
-val mfdc_solve : bool -> fd_params -> raw list -> outcome0
-
-val mpc_solve : bool -> nat -> nat -> raw list -> outcome0
-
-val mpcc_solve : bool -> nat -> nat -> raw list -> outcome0
-=======
 val fd_solve : bool -> bool -> fd_params -> raw list -> outcome
 
 val mfd_solve : bool -> bool -> fd_params -> raw list -> outcome
@@ -1171,7 +726,6 @@ val mfdc_solve : bool -> fd_params -> raw list -> outcome
 val mpc_solve : bool -> nat -> nat -> raw list -> outcome
 
 val mpcc_solve : bool -> nat -> nat -> raw list -> outcome
->>>>>>> main
 
 type npo_params = { kstart : nat; kmax : nat; first_feasible : bool;
                     delta_abs : q option; delta_rel : q option;
@@ -1190,11 +744,7 @@ val npo_check : npo_params -> q option -> q -> npo_step
 val npo_loop :
   npo_params -> nat list -> raw list -> q option -> nat -> result * nat
 
-<<<<<<< HEAD
-val npo_solve : npo_params -> raw list -> outcome0
-=======
 val npo_solve : npo_params -> raw list -> outcome
->>>>>>> main
 
 val of_list : bool list -> nat -> bool
 
@@ -1202,25 +752,6 @@ val q_of_list : q list -> nat -> q
 
 val run_kmodel : bool -> bool -> kop list -> kout list * nat
 
-<<<<<<< HEAD
-val run_mgs : bool -> nat -> nat -> raw list -> outcome0
-
-val run_mfd :
-  bool -> bool -> bool -> nat -> nat -> bool -> nat -> bool -> nat -> bool
-  list -> raw list -> outcome0
-
-val run_mfdc :
-  bool -> bool -> nat -> nat -> bool -> nat -> bool -> nat -> bool list ->
-  raw list -> outcome0
-
-val run_mpc : bool -> nat -> nat -> raw list -> outcome0
-
-val run_mpcc : bool -> nat -> nat -> raw list -> outcome0
-
-val run_npo :
-  nat -> nat -> bool -> q option -> q option -> bool list -> q list -> bool
-  list -> raw list -> outcome0
-=======
 val run_mgs : bool -> nat -> nat -> raw list -> outcome
 
 val run_mfd :
@@ -1238,7 +769,6 @@ val run_mpcc : bool -> nat -> nat -> raw list -> outcome
 val run_npo :
   nat -> nat -> bool -> q option -> q option -> bool list -> q list -> bool
   list -> raw list -> outcome
->>>>>>> main
 
 type wcol = { wlb : q; wub : q; wcost : q; wint : bool }
 
@@ -1252,11 +782,7 @@ type op =
 | QueueLb of nat * q
 | Optimize
 
-<<<<<<< HEAD
-val upd0 : wcol list -> nat -> (wcol -> wcol) -> wcol list
-=======
 val upd : wcol list -> nat -> (wcol -> wcol) -> wcol list
->>>>>>> main
 
 val fixc : q -> wcol -> wcol
 
